@@ -7,7 +7,12 @@ package event
 // the REAL handlers (addStat) on a store it supplies (in-memory sqlite), without Postgres, Kafka or
 // the events worker.
 
-import "0chain.net/smartcontract/dbs"
+import (
+	"context"
+
+	"0chain.net/core/config"
+	"0chain.net/smartcontract/dbs"
+)
 
 // VerifMergeEvents is mergeEvents (process.go).
 func VerifMergeEvents(round int64, block string, events []Event) ([]Event, error) {
@@ -22,4 +27,34 @@ func VerifNewEventDb(store dbs.Store) *EventDb {
 // VerifAddStat is the handler dispatch of one (merged) event: (*EventDb).addStat (process.go).
 func (edb *EventDb) VerifAddStat(e Event) error {
 	return edb.addStat(e)
+}
+
+// ---- the commit path (fault-injection ops of harness/cmd/c20) ----------------------------------------------------
+
+type verifNopKafka struct{}
+
+func (verifNopKafka) PublishToKafka(topic string, key, message []byte) chan int64 {
+	c := make(chan int64, 1)
+	c <- 0
+	return c
+}
+func (verifNopKafka) ReconnectWriter(topic string) error { return nil }
+func (verifNopKafka) CloseWriter(topic string) error     { return nil }
+func (verifNopKafka) CloseAllWriters() error             { return nil }
+
+// VerifNewWorkerEventDb builds an EventDb over the given store exactly as NewInMemoryEventDb does (channels, settings)
+// and starts the REAL events worker (addEventsWorker), so that the exported ProcessEvents runs its real path:
+// mergeEvents → Begin → worker: Work → WorkEvents → addEvents, processEvent/addStat → commit or rollback.
+// No kafka; partition periods so large that no round triggers partition management.
+func VerifNewWorkerEventDb(ctx context.Context, store dbs.Store) *EventDb {
+	edb := &EventDb{
+		Store:                  store,
+		eventsChannel:          make(chan BlockEvents, 1),
+		partitionChan:          make(chan int64, 100),
+		permanentPartitionChan: make(chan int64, 100),
+		settings:               config.DbSettings{PartitionChangePeriod: 1 << 40, PermanentPartitionChangePeriod: 1 << 40, PartitionKeepCount: 10, PermanentPartitionKeepCount: 10},
+		kafka:                  verifNopKafka{},
+	}
+	go edb.addEventsWorker(ctx, func(round int64) (int64, []Event, error) { return round, []Event{}, nil })
+	return edb
 }
